@@ -178,7 +178,7 @@ def lit_in(n):
 def run(rep, ctx):
     repo = ctx["repo"]
     vis = [u for u, k in units.UNITS.items() if k == "visitor"]
-    fn = [PRED_RE, r"mp::FlatBackend::GetSolution", r".*::HandleSolution", r"mp::SolutionAdapter::.*", r"mp::WriteSolFile",
+    fn = [PRED_RE, r"mp::FlatBackend::GetSolution", r"mp::MIPBackend::ReportRays", r".*::HandleSolution", r"mp::SolutionAdapter::.*", r"mp::WriteSolFile",
           r"mp::StdBackend::ReportSolution2AMPL", r"mp::StdBackend::SolveCode",
           r"mp::SolveResultRegistry::SolveResultRegistry"]
     jobs = [dict(unit=u, fn=fn, enum=[r"mp::sol::Status"], repo=repo) for u in vis]
@@ -222,6 +222,36 @@ def run(rep, ctx):
         if re.search(PN, qn):
             continue
         raise AnalysisBroken("C10.U1: new use site %s of %s is not in the reference table (read it and extend the table)" % (qn, sorted(found[qn])))
+    # which class gates which ray
+    rr = [f for f in F.funcs if f.qn == "mp::MIPBackend::ReportRays" and not f.is_dependent() and f.cfg is not None]
+    if not rr:
+        raise AnalysisBroken("C10.U1: MIPBackend::ReportRays not exported")
+    f = rr[0]
+    locs = {v["declId"]: kids(v)[0] for v in f.walk() if v["k"] == "VarDecl" and kids(v)}
+
+    def preds_in(n, depth=0):
+        out = set()
+        for x in walk(n):
+            if x["k"] in ("CXXMemberCallExpr", "CallExpr") and re.search(PN, "::" + (x.get("callee") or "").split("::")[-1]):
+                out.add((x.get("callee") or "").split("::")[-1])
+            if x["k"] == "DeclRefExpr" and x.get("declId") in locs and depth < 3:
+                out |= preds_in(locs[x["declId"]], depth + 1)
+        return out
+    WANT_RAY = {"suf_unbdd": ({"IsProblemUnbounded", "IsProblemIndiffInfOrUnb"}, "primal ray"), "suf_dunbdd": ({"IsProblemInfeasible", "IsProblemIndiffInfOrUnb"}, "dual ray")}
+    for c in f.walk():
+        if c["k"] == "CXXMemberCallExpr" and (c.get("callee") or "").split("::")[-1] == "ReportSuffix":
+            sfx = render(call_args(c)[0]).replace("this->", "")
+            if sfx not in WANT_RAY:
+                continue
+            got = set()
+            for anc in f.ancestors(c):
+                if anc["k"] == "IfStmt":
+                    real = [x for x in anc.get("c", []) if x is not None]
+                    if len(real) >= 2 and any(y is c for y in walk(real[1])):
+                        got |= preds_in(real[0])
+            want, what = WANT_RAY[sfx]
+            u1.check(got == want, "ray|" + sfx, short_loc(c.get("l")), "the %s (%s) is reported for %s" % (what, sfx, sorted(want)),
+                     "the %s (%s) is reported when %s holds; it belongs to %s: the suffix is written for the wrong result class and missing for the right one" % (what, sfx, sorted(got), sorted(want)))
     # the flag really is what the checker is told
     for f in F.funcs:
         if f.qn == "mp::FlatBackend::GetSolution" and not f.is_dependent() and f.cfg is not None:
